@@ -48,6 +48,10 @@ theorem frame_run {mark : Nat} {pre : List Nat} {old : Bytes → List Version} :
     simp only [Spec.run]
     exact ih _ (frame_step hf op hr.1) hr.2
 
+/-- calls that never revert to a checkpoint older than `cp` -/
+def NoRevertBelow (cp : Nat) (ops : List Op) : Prop :=
+  ∀ op ∈ ops, match op with | .revert c => cp ≤ c | _ => True
+
 /-- the sequence never releases or cleans up a stage with handle ≤ `base` -/
 def KeepsStage (base : Nat) : Spec → List Op → Prop
   | _, [] => True
